@@ -26,7 +26,7 @@ def one(diff):
     finally:
         shutil.rmtree(tmp, ignore_errors=True)
 
-with ThreadPoolExecutor(max_workers=4) as ex:
+with ThreadPoolExecutor(max_workers=int(os.environ.get("MMD_JOBS", "4"))) as ex:
     for diff, status, bad in ex.map(one, sys.argv[1:] or sorted(__import__("glob").glob(os.path.join(HERE, "benign", "*.diff")))):
         print(os.path.basename(os.path.dirname(diff)) + "/" + os.path.basename(diff), status)
         for p, lines in bad.items():
